@@ -546,15 +546,38 @@ func (b *builder) msg(fl *File, scope string, m *Msg) *descriptorpb.DescriptorPr
 			}
 		}
 	}
-	for _, fdp := range proto3Opt {
-		name := "_" + fdp.GetName()
-		for _, od := range md.OneofDecl {
-			if od.GetName() == name {
-				b.unk("synthetic oneof name %s collides", name)
-			}
+	// protoc's GenerateSyntheticOneofs: `_` is prepended unless the name already starts with one,
+	// then `X` as often as needed to avoid the names of the message's fields and oneofs.
+	if len(proto3Opt) > 0 {
+		names := map[string]bool{}
+		for _, f := range md.Field {
+			names[f.GetName()] = true
 		}
-		fdp.OneofIndex = proto.Int32(int32(len(md.OneofDecl)))
-		md.OneofDecl = append(md.OneofDecl, &descriptorpb.OneofDescriptorProto{Name: proto.String(name)})
+		for _, od := range md.OneofDecl {
+			names[od.GetName()] = true
+		}
+		for _, fdp := range proto3Opt {
+			name := fdp.GetName()
+			if !strings.HasPrefix(name, "_") {
+				name = "_" + name
+			}
+			for names[name] {
+				name = "X" + name
+			}
+			names[name] = true
+			for _, n := range md.NestedType {
+				if n.GetName() == name {
+					b.unk("synthetic oneof name %s collides with a nested type", name)
+				}
+			}
+			for _, n := range md.EnumType {
+				if n.GetName() == name {
+					b.unk("synthetic oneof name %s collides with a nested enum", name)
+				}
+			}
+			fdp.OneofIndex = proto.Int32(int32(len(md.OneofDecl)))
+			md.OneofDecl = append(md.OneofDecl, &descriptorpb.OneofDescriptorProto{Name: proto.String(name)})
+		}
 	}
 	// rule 6
 	overlap := func(a, c [2]int64) bool { return a[0] <= c[1] && c[0] <= a[1] }
@@ -925,7 +948,8 @@ func (b *builder) field(fl *File, scope string, x *Field, extendee string, oneof
 		case "packed":
 			v := b.boolOpt(o)
 			opt().Packed = v
-			if fd.GetLabel() != descriptorpb.FieldDescriptorProto_LABEL_REPEATED || !isRepeatable || x.Map != nil {
+			// (protoc tests the option's value: `packed = false` is accepted anywhere)
+			if v != nil && *v && (fd.GetLabel() != descriptorpb.FieldDescriptorProto_LABEL_REPEATED || !isRepeatable || x.Map != nil) {
 				b.rej("packed-not-allowed", "field %s: packed on a field that is not a repeated primitive", full)
 			}
 			if fl.Syntax == "2023" {
